@@ -1508,14 +1508,26 @@ pub fn gen_c08(r: &mut Rng) -> (String, Sim) {
         let p = r.below(np as u64) as usize;
         let ev = match r.below(20) {
             0..=5 => {
-                // two announces in a row from one master so that it qualifies
+                // two announces in a row from one master so that it qualifies; sometimes two
+                // ports of the instance sit on the same segment and hear the very same frames
                 let m = r.below(nm as u64) as usize;
+                let q = if np >= 2 && r.chance(1, 3) { Some((p + 1) % np) } else { None };
                 let f = w.announce_frame(m, &[]);
+                if let Some(q) = q {
+                    if !sim.step(Ev::RecvGeneral(q, f.clone())) {
+                        break;
+                    }
+                }
                 if !sim.step(Ev::RecvGeneral(p, f)) {
                     break;
                 }
                 w.observe(&sim);
                 let f = w.announce_frame(m, &[]);
+                if let Some(q) = q {
+                    if !sim.step(Ev::RecvGeneral(q, f.clone())) {
+                        break;
+                    }
+                }
                 Ev::RecvGeneral(p, f)
             }
             6..=9 => Ev::Bmca,
